@@ -203,6 +203,16 @@ func (env *Env) eval(e Expr) Value {
 	case *EIndex:
 		v := env.eval(t.X)
 		iv := env.eval(t.I)
+		if mt, isMap := v.T.Underlying().(*types.Map); isMap {
+			if iv.T == tUntyped {
+				iv, _ = env.coerce(iv, c.Zero(mt.Key()))
+			}
+			_, mv, ok := x.mapGet(env.st, v, x.mapKeyTerm(iv))
+			if !ok {
+				env.fail("maps with composite keys are not modelled")
+			}
+			return mv
+		}
 		idx := env.toINT(iv)
 		switch u := v.T.Underlying().(type) {
 		case *types.Slice:
@@ -582,6 +592,22 @@ func (env *Env) evalCall(t *ECall) Value {
 	case "off":
 		v := env.eval(t.Args[0])
 		return c.Scalar(tInt, v.SOff())
+	case "has":
+		// has(m, k): key k is present in map m (maps with scalar keys, see maps.go)
+		m := env.eval(t.Args[0])
+		mt, isMap := m.T.Underlying().(*types.Map)
+		if !isMap {
+			env.fail("has() on %s", m.T)
+		}
+		kv := env.eval(t.Args[1])
+		if kv.T == tUntyped {
+			kv, _ = env.coerce(kv, c.Zero(mt.Key()))
+		}
+		pres, _, ok := x.mapGet(env.st, m, x.mapKeyTerm(kv))
+		if !ok {
+			env.fail("has(): maps with composite keys are not modelled")
+		}
+		return env.boolv(pres)
 	case "fresh":
 		// allocated during the call: reference above the old allocation counter
 		v := env.eval(t.Args[0])
